@@ -213,7 +213,7 @@ SPECS["C20"] = {
     "groups": [dict(LIBGO, entries=[
         {"name": "VerifC20_ShutdownDrains", "native": False, "quick": {"params": [0, 4], "bound": 2, "flags": ["-preempt", "2", "-par", "4"], "procs": 2},
          "thorough": {"params": [0, 1, 2, 3, 4, 5], "bound": 3, "flags": ["-preempt", "2", "-par", "2"], "procs": 6},
-         "expect_reach": ["end", "racing-request", "burst-exceeds-queue"]},
+         "expect_reach": ["end", "racing-request", "burst-exceeds-queue", "stop-races-startup"]},
         {"name": "VerifC20_ShutdownDrains", "native": False, "tiers": ["quick"], "quick": {"params": [1, 2, 3, 5, 6, 10], "bound": 2, "flags": ["-preempt", "1"], "procs": 6},
          "expect_reach": ["end", "racing-request", "burst-exceeds-queue", "two-subjects"]},
         {"name": "VerifC20_ShutdownDrains", "native": False, "tiers": ["thorough"], "thorough": {"params": [6, 7, 8, 9, 10, 11], "bound": 2, "flags": ["-preempt", "2", "-par", "2"], "procs": 6},
@@ -328,7 +328,7 @@ SPECS["C02"] = {
     "custom": "c02",
     "groups": [],
     "quick_programs": ["c02_base.frugal", "c02_basic.frugal", "c02_nested.frugal"],
-    "entries_only": {"quick": {"c02_nested": ["VerifC02_Level", "VerifC02_Label"]}},
+    "entries_only": {"quick": {"c02_nested": ["VerifC02_Level", "VerifC02_Label", "VerifC02_Tagged"]}},
     "elems": {"quick": 1, "thorough": 2},
     "slim_programs": {"quick": ["c02_basic.frugal"], "thorough": ["c02_basic.frugal"]},
     "slim_entries": {"quick": ["VerifC02_Inner", "VerifC02_Scalars", "VerifC02_Shades", "VerifC02_Choice", "VerifC02_Oops", "VerifC02_Strict"]},
@@ -336,7 +336,7 @@ SPECS["C02"] = {
     "wall": {"quick": 240, "thorough": 900},
     "level_text": "Bounded symbolic model checking of GENERATED code: for every program of the catalogue /verif/catalogue/c02_*.frugal the real compiler (built from /repo at check time) emits Go, and gose executes the emitted Read and Write of every struct, union, exception and every service args/result struct against a scripted + recording thrift.TProtocol: a value tree with symbolic scalars/strings/binaries, symbolic presence of every optional field, symbolic union selector and containers of 0..1 (thorough 0..2) elements is encoded as a conforming event stream (fields in declaration or reversed order; optionally one unknown field of symbolic id and one of four types anywhere; or one required field missing), fed to the generated Read, and the resulting object is written by the generated Write: Read must consume the encoding step by step and accept it (reject it when a required field is missing), skip exactly the unknown field with its wire type, and Write must emit exactly the declared field ids, wire types, field and struct names and the decoded values, required and default fields always, optional fields iff set, one field for a union; two-element maps/sets in either order. The oracle model (ids, wire types after typedef/enum/include resolution, requiredness, names) is read from the IDL text by idlmini.py, independently of the generator. Because the generated code only talks to the TProtocol interface the result is protocol independent; thrift's binary/compact/JSON implementations are trusted. Outside: programs beyond the catalogue (programs are enumerated, values symbolic), containers with more elements, default values of absent default-requiredness fields, doubles other than three constants.",
     "level_note": "Trusted: go/ssa, gose interpreter, z3; idlmini.py as the oracle's IDL reader; the scripted TProtocol in c02_harness.go.tmpl.",
-    "bounds": {"quick": "catalogue programs c02_basic (all types; the six data types again with the `slim` generator option), c02_base, and of c02_nested (generated recursively with its include, -r) the types Level and Label (c02_base is checked on the output of that recursive run); containers 0..1 elements; strings/binaries 0..2 bytes", "thorough": "all catalogue programs; containers 0..2 elements (0..1 for the six types with nested or several containers: Containers, Shape, Deep, Either, Child.build result, Child.points args, whose path count exceeds the wall limit at 2)"},
+    "bounds": {"quick": "catalogue programs c02_basic (all types; the six data types again with the `slim` generator option), c02_base, and of c02_nested (generated recursively with its include, -r) the types Level, Label and Tagged (a typedef name declared in both files with different base types; c02_base is checked on the output of that recursive run); containers 0..1 elements; strings/binaries 0..2 bytes", "thorough": "all catalogue programs; containers 0..2 elements (0..1 for the six types with nested or several containers: Containers, Shape, Deep, Either, Child.build result, Child.points args, whose path count exceeds the wall limit at 2)"},
     "assumptions": ["catalogue IDL files follow the one-field-per-line layout idlmini.py reads"],
 }
 
@@ -353,6 +353,7 @@ SPECS["C03"] = {
             {"name": "VerifC03_VoidThrows", "quick": {"params": [0], "bound": 1}, "thorough": {"params": [0], "bound": 2}, "expect_reach": ["end", "void-ok", "void-declared-1", "void-declared-2"]},
             {"name": "VerifC03_PingFire", "quick": {"params": [0, 1], "bound": 1}, "thorough": {"params": [0, 1], "bound": 2}, "expect_reach": ["end", "ping", "fire"]},
             {"name": "VerifC03_ConcurrentCalls", "native": False, "flags": ["-preempt", "1"], "quick": {"params": [0]}, "thorough": {"params": [0], "flags": ["-preempt", "2"]}},
+            {"name": "VerifC03_AdapterCalls", "native": False, "flags": ["-preempt", "1", "-race"], "quick": {"params": [0, 1], "procs": 2}, "thorough": {"params": [0, 1], "procs": 2, "flags": ["-preempt", "2", "-race", "-par", "4"]}},
             {"name": "VerifC03_OversizeReply", "native": False, "quick": {"params": [0]}, "thorough": {"params": [0]}},
             {"name": "VerifC03_Names", "quick": {"params": [0, 1, 2, 3], "bound": 1}, "thorough": {"params": [0, 1, 2, 3], "bound": 2}, "expect_reach": ["end", "out-of-order-ids", "typedef-enum-return"]},
         ]},
